@@ -1,6 +1,6 @@
 PROPS["C01"] = prop(
     "exploration",
-    "rapid-generated stateful programs (concurrent publishers, reload, restart, crash-at-write, injected store faults of several error kinds incl. deadline, store latency on the virtual clock so that requests interleave at store-call boundaries, requests sent at the very moment a topic's idle timer fires, protobuf connections) against a per-topic counter model; invariant checked after every step over acks, {data} frames, descriptions and the store",
+    "rapid-generated stateful programs (concurrent publishers, reload, restart, crash-at-write, injected store faults of several error kinds incl. deadline, store latency on the virtual clock so that requests interleave at store-call boundaries, requests sent at the very moment a topic's idle timer fires, protobuf connections) against a per-topic counter model; invariant checked after every step over acks, {data} frames, descriptions and the store; after seeded round 6: video calls in the P2P topic - a message the server writes itself (the outcome of a call) is one number of the sequence like an acknowledged publish; a publish sent at the instant the ring timer fires, hang-ups, a call party dropped for a full send queue",
     "program = session layout + prologue (group/channel, p2p) + 2-14 ops from {pub, parallel pubs, sub/leave, reload, restart, fault(k)+pub, crash(k)+pub, get}; "
     "non-trivial = >=2 accepted publishes from >=2 sessions and at least one of {parallel batch, reload, restart, crash point, injected fault}; distinct = FNV-64 of the program",
     "Generated publish histories on the real hub/topic/session code over the reference store; every acknowledged id must be the next one, every copy and history row must show it, crash points are store-call boundaries. Sampled.",
